@@ -74,6 +74,14 @@ def payloadAcceptable (argument : Option Bool) (hasData clientAccepts : Bool) : 
   | some true => hasData && clientAccepts
   | _ => !hasData
 
+/-- the verdict of the DESCRIBED datainfo of a command on the payload of a `do`, given the verdicts
+`clientAccepts datainfo payload` of the argument datatype a client rebuilds from a described command datainfo -/
+def describedAccepts (clientAccepts : J → J → Bool) (ad : AccDesc J) (data : Option J) : Bool :=
+  payloadAcceptable ad.argument data.isSome
+    (match data with
+     | some j => clientAccepts ad.datainfo j
+     | none => false)
+
 /-- what the report promises about one exchange:
 * nothing that is not described can be read, changed, executed or subscribed (`NoSuch…`, no call, no subscription);
 * the described KIND is honoured: a described command can neither be changed, read nor subscribed, a described
